@@ -231,6 +231,7 @@ func (m *Machine) runPath(fn *ssa.Function, script []int, sv *Solver, pool *Pool
 		}
 		res.Decls = x.Decls
 		res.PC = x.PC
+		res.Evals = x.Evals
 		m.statMu.Lock()
 		for k, v := range i.funcCalls {
 			m.FuncsExecuted[k] += v
